@@ -68,7 +68,7 @@ def run(eng, rep) -> None:
     idx = re.findall(r"last_send_t\[\x00(.*?)\x00\]", text)
     rep.check(len(idx) == 2 and all(i.strip() == "loop.index0" for i in idx), "J", F, "scheduler", "last_send_t[%s]" % ", ".join(idx), "slot = position of the message in the loop, same in test and update", "the last-send slot is not loop.index0 in both the test and the update (messages share or miss slots)")
     periods = re.findall(r"CAN_MSG_PERIOD_\x00(.*?)\x00", text)
-    rep.check(len(periods) == 2 and len(set(periods)) == 1 and periods[0].replace(" ", "").startswith("%s.name_snake" % mvar), "J", F, "scheduler", "CAN_MSG_PERIOD_{{%s}} x%d" % (periods[0] if periods else "?", len(periods)), "both period macros are the loop message's", "the two period macros in the guard do not both name the loop's message")
+    rep.check(len(periods) >= 2 and len(set(periods)) == 1 and periods[0].replace(" ", "").startswith("%s.name_snake" % mvar), "J", F, "scheduler", "CAN_MSG_PERIOD_{{%s}} x%d" % (periods[0] if periods else "?", len(periods)), "both period macros are the loop message's", "the two period macros in the guard do not both name the loop's message")
     enc = re.findall(r"can_encode_msg_\x00(.*?)\x00\(&dev->\x00(.*?)\x00\)", text)
     rep.check(len(enc) == 1 and enc[0][0].strip() == "%s.name_snake" % mvar and enc[0][1].strip() == "%s.name_snake" % mvar, "J", F, "scheduler", "can_encode_msg_{{m}}(&dev->{{m}})", "encodes the loop message's own member", "the frame sent is not the encoding of the loop message's own member of the device")
     alen = re.search(r"last_send_t\[\{\{\s*(.*?)\s*\}\}\]\s*=\s*\{0\}", ct.source)
